@@ -238,64 +238,71 @@ def mcand(cell, c, spec):
     return [cell, F(DT[spec["dtype"]](c[1])), c[0]]
 
 
+def apply_op(archive, spec, op, table, obs=True):
+    """applies ONE valid operation to a live archive -> (trace entry, model ops)"""
+    mops = []
+    ent = {}
+    if op[0] == "add":
+        cands = op[1]
+        for c in cands:
+            table[c[0]] = c
+        kw = batch_arrays(spec, cands, op[2] if len(op) > 2 else "nd")
+        cells = cells_of(archive, spec, cands, kw["measures"])
+        try:
+            info = archive.add(**kw)
+            if not cands and not info:
+                # SlidingBoundariesArchive.add returns an empty dict for an empty batch (no rows to report)
+                info = {"status": np.array([], dtype=np.int32), "value": np.array([], dtype=DT[spec["dtype"]])}
+            ent["ret"] = {"status": [int(x) for x in info["status"]], "value": [F(x) for x in info["value"]],
+                          "value_dtype": np.asarray(info["value"]).dtype.name, "keys": sorted(info.keys())}
+        except Exception as e:  # noqa
+            ent["ret"] = {"error": err_code(e), "msg": repr(e)}
+        if spec["kind"] == "sliding":
+            # documented: SlidingBoundariesArchive.add is a loop of add_single, in order
+            for cell, c in zip(cells, cands):
+                mops.append([1, mcand(cell, c, spec)])
+            ent["n_mops"] = len(cands)
+        else:
+            mops.append([0, [mcand(cell, c, spec) for cell, c in zip(cells, cands)]])
+            ent["n_mops"] = 1
+        ent["cells"] = cells
+    elif op[0] == "add_single":
+        c = op[1]
+        table[c[0]] = c
+        kw = single_args(spec, c, op[2] if len(op) > 2 else "nd")
+        cell = int(archive.index_of_single(kw["measures"]))
+        try:
+            info = archive.add_single(**kw)
+            ent["ret"] = {"status": [int(info["status"])], "value": [F(info["value"])],
+                          "value_dtype": np.asarray(info["value"]).dtype.name, "keys": sorted(info.keys())}
+        except Exception as e:  # noqa
+            ent["ret"] = {"error": err_code(e), "msg": repr(e)}
+        mops.append([1, mcand(cell, c, spec)])
+        ent["n_mops"] = 1
+        ent["cells"] = [cell]
+    elif op[0] == "clear":
+        archive.clear()
+        ent["ret"] = {}
+        mops.append([2])
+        ent["n_mops"] = 1
+    else:
+        raise AssertionError(op)
+    if obs:
+        ent["obs"] = observe(archive, spec, table)
+        mops.extend([[4], [5]])
+    return ent, mops
+
+
 def run_impl(spec, ops, obs=True):
-    """Runs a history on the real archive. ops: ["add", cands, container] | ["add_single", cand, container] | ["clear"]
-       | ["retrieve", [measures...]].
-    Returns (trace, mops): trace[k] = dict(ret=..., obs=...), mops = model op list (with cells from index_of)."""
+    """Runs a history on the real archive. ops: ["add", cands, container] | ["add_single", cand, container] | ["clear"].
+    Returns (trace, mops, archive, table): trace[k] = dict(ret=..., obs=...), mops = model op list (with cells from index_of)."""
     archive = make_archive(spec)
     table = {}
     trace, mops = [], []
     for op in ops:
-        ent = {}
-        if op[0] == "add":
-            cands = op[1]
-            for c in cands:
-                table[c[0]] = c
-            kw = batch_arrays(spec, cands, op[2] if len(op) > 2 else "nd")
-            cells = cells_of(archive, spec, cands, kw["measures"])
-            try:
-                info = archive.add(**kw)
-                if not cands and not info:
-                    # SlidingBoundariesArchive.add returns an empty dict for an empty batch (no rows to report)
-                    info = {"status": np.array([], dtype=np.int32), "value": np.array([], dtype=DT[spec["dtype"]])}
-                ent["ret"] = {"status": [int(x) for x in info["status"]], "value": [F(x) for x in info["value"]],
-                              "value_dtype": np.asarray(info["value"]).dtype.name, "keys": sorted(info.keys())}
-            except Exception as e:  # noqa
-                ent["ret"] = {"error": err_code(e), "msg": repr(e)}
-            if spec["kind"] == "sliding":
-                # documented: SlidingBoundariesArchive.add is a loop of add_single, in order
-                for cell, c in zip(cells, cands):
-                    mops.append([1, mcand(cell, c, spec)])
-                ent["n_mops"] = len(cands)
-            else:
-                mops.append([0, [mcand(cell, c, spec) for cell, c in zip(cells, cands)]])
-                ent["n_mops"] = 1
-            ent["cells"] = cells
-        elif op[0] == "add_single":
-            c = op[1]
-            table[c[0]] = c
-            kw = single_args(spec, c, op[2] if len(op) > 2 else "nd")
-            cell = int(archive.index_of_single(kw["measures"]))
-            try:
-                info = archive.add_single(**kw)
-                ent["ret"] = {"status": [int(info["status"])], "value": [F(info["value"])],
-                              "value_dtype": np.asarray(info["value"]).dtype.name, "keys": sorted(info.keys())}
-            except Exception as e:  # noqa
-                ent["ret"] = {"error": err_code(e), "msg": repr(e)}
-            mops.append([1, mcand(cell, c, spec)])
-            ent["n_mops"] = 1
-            ent["cells"] = [cell]
-        elif op[0] == "clear":
-            archive.clear()
-            ent["ret"] = {}
-            mops.append([2])
-            ent["n_mops"] = 1
-        else:
-            raise AssertionError(op)
-        if obs:
-            ent["obs"] = observe(archive, spec, table)
-            mops.extend([[4], [5]])
+        ent, m = apply_op(archive, spec, op, table, obs)
         trace.append(ent)
+        mops.extend(m)
     return trace, mops, archive, table
 
 
@@ -345,6 +352,11 @@ def compare_history(driver, spec, ops, exact_values=True, stats_mode="exact", ch
     exact_values: thresholds / objectives compared exactly.
     stats_mode: 'exact' | 'rounded' (each statistic within 4 ulp of the model's exact value, scale = sum of |objectives|) | 'none'."""
     trace, mops, archive, table = run_impl(spec, ops)
+    return compare_trace(driver, spec, ops, trace, mops, exact_values, stats_mode, check_value)
+
+
+def compare_trace(driver, spec, ops, trace, mops, exact_values=True, stats_mode="exact", check_value=True):
+    """compares an implementation trace (as produced by run_impl for the valid operations `ops`) with the model run on `mops`"""
     mout = model_outputs(driver, spec, mops)
     dtype = DT[spec["dtype"]]
     k = 0
